@@ -12,7 +12,7 @@ from . import common
 
 ALPHA13 = ["M", "m", "L", "z", "a", "0", "1", ".", "-", "+", "e", " ", ","]
 NUMFORMS = ["0", "1", "-1", "+1", ".5", "1.5", "1e2", "1E-2", "01", "00", "1.", "-.5",
-            "0.5e-1", "10", "-0", "1e+1", "007"]
+            "0.5e-1", "10", "-0", "1e+1", "007", "1.e1", "2.E+1", "-1.e-1", "3.e0"]
 SEPS = ["", " ", ",", " , ", ",,", "\t", "  ", "\n", "\r\n", ",\n"]
 CMDS = "MmZzLlHhVvCcSsQqTtAa"
 ARITY = dict(M=2, Z=0, L=2, H=1, V=1, C=6, S=4, Q=4, T=2, A=7)
